@@ -7,6 +7,7 @@ import BridgeVerif.Driver.Notation
 import BridgeVerif.Driver.Hands
 import BridgeVerif.Driver.Msg
 import BridgeVerif.Driver.Session
+import BridgeVerif.Driver.Json
 /-! The line-protocol driver: one op per line in, one canonical line out. -/
 namespace Bridge.Driver
 
@@ -14,6 +15,7 @@ structure DState where
   auction : Option AState := none
   play : Option PlayMode := none
   sess : XState := {}
+  json : JState := {}
 
 def scoreOps (t : List String) : Option String :=
   match t with
@@ -43,6 +45,9 @@ def step (s : DState) (line : String) : DState × String :=
     else if op.startsWith "X." then
       let (a, o) := sessionOps s.sess t
       ({ s with sess := a }, o)
+    else if op.startsWith "J." then
+      let (a, o) := jsonOps s.json t
+      ({ s with json := a }, o)
     else if op.startsWith "M." || op.startsWith "F." then
       (s, (msgOps t).getD "bad-op")
     else if op.startsWith "H." then
